@@ -1,5 +1,15 @@
 (* correspondence glue for C01 / C02 / C03: the exact line and the mark trace *)
 From Verif Require Import Base.Prelude Base.Decimal Enc.JsonEnc Misc.Level Api.Exec.
+(* hook.go LevelHook (a Hook of the library, "applies a different hook for each level"): Run(e, level, msg) hands the
+   event to the hook held for [level] - fields TraceHook(-1) DebugHook InfoHook WarnHook ErrorHook FatalHook PanicHook
+   NoLevelHook(6), given here in that order, None = nil - and to none for any other level value.  The level it is
+   handed is e.level at the time the hook list is walked, which is Disabled once an earlier hook has discarded the
+   event: exactly the test OFunc makes.  The drivers print Hook(LevelHook{...}) as [CHook (level_hook hs lvl)] with the
+   level of the case's event, so the dispatch is evaluated here, not in the Go printer. *)
+Definition level_hook (hs : list (option (list op))) (lvl : Z) : list op :=
+  [OFunc (if (TraceLevel <=? lvl)%Z && (lvl <=? NoLevel)%Z
+          then match nth (Z.to_nat (lvl - TraceLevel)%Z) hs None with Some h => h | None => [] end
+          else [])].
 Definition c01_case := (settings * list (bool * list cop) * Z * list op * bytes)%type.
 Definition c01_obs := (option bytes * list N)%type.
 (* Logger.WithLevel(Disabled) returns the nil event: nothing is written and no hook, callback or marshaler
